@@ -293,18 +293,41 @@ def reservations(ck, prog, config, maxc):
               allocs[0].line, config=config)
     # index_create: per-entry reservation 2 * MAX_COMP_SIZE + digests
     fn = prog.need_func('index_create')
-    loops = [s for s in walk_stmts(fn.body) if s.k == 'while']
+    loops = [s for s in walk_stmts(fn.body) if s.k in ('while', 'for', 'do')]
     ck.require(len(loops) >= 2, 'index_create: reservation and write loops not found')
+    defs = {}
+    for s in walk_stmts(fn.body):
+        if s.k == 'decl' and s.e is not None:
+            defs.setdefault(s.var.decl, []).append(s.e)
     res_const = None
-    for s in walk_stmts(loops[0].body):
-        if s.e is not None:
-            for n in walk(s.e):
+
+    def consts_of(e, depth=0):
+        out = []
+        for m in walk(e):
+            cv = const_value(m)
+            if cv is not None:
+                out.append(cv)
+            elif m.k == 'var' and depth < 2 and len(defs.get(m.decl, [])) == 1:
+                out += consts_of(defs[m.decl][0], depth + 1)     # a per-entry size hoisted into a local
+        return out
+    res_loop = None
+    for lp in loops:
+        exprs = [s.e for s in walk_stmts(lp.body) if s.e is not None]
+        if lp.k == 'for' and lp.inc is not None and not isinstance(lp.inc, list):
+            exprs.append(lp.inc)
+        for e in exprs:
+            for n in walk(e):
                 if n.k == 'bin' and n.op == '+=' and pstr(n.a[0]) == 'index_malloc':
                     # constant part of the per-entry reservation
-                    for m in walk(n.a[1]):
-                        cv = const_value(m)
-                        if cv is not None and cv >= maxc:
+                    for cv in consts_of(n.a[1]):
+                        if cv >= maxc:
                             res_const = max(res_const or 0, cv)
+                            res_loop = lp
+    wl = [lp for lp in loops if lp is not res_loop and any(
+        callee_name(c) in ('compint_from_size', 'compint_from_int') for s in walk_stmts(lp.body) if s.e is not None
+        for c in calls_in(s.e))]
+    ck.require(len(wl) >= 1, 'index_create: the loop that writes the entries was not found')
+    loops = [res_loop or loops[0], wl[0]]
     writes = [c for s in walk_stmts(loops[1].body) if s.e is not None for c in calls_in(s.e)
               if callee_name(c) in ('compint_from_size', 'compint_from_int')]
     ok = res_const is not None and res_const >= maxc * len(writes) and len(writes) >= 1
